@@ -204,6 +204,17 @@ CHECKS = {
              "A few (a) partitions do not exhaust within the quick budget and are reported inconclusive.",
         ref="DESIGN.md 4 C03",
     ),
+    "C17": dict(
+        text="Formatter kernel and families on the real formatter and xonsh's own parser: _source_slice over every symbolic token span "
+             "(four integers) of three sources must return exactly the text between the positions; triple-quoted literals with every body "
+             "of up to 3+2 symbols over {a, space, tab, backslash, quote} in three syntactic positions, every ordered pair of 43 statements "
+             "(Python, subprocess lines, comments, continuations, tab/2/4/8-space indentation, f-strings) under three separators, go through "
+             "format_source and are parsed before and after with Execer.parse: same tree, second pass a no-op, exactly one final newline, "
+             "FormatError instead of rewriting; the CLI rewrites ASCII and multi-byte files in place to exactly format_source's output.",
+        note="Partial claim: generated families, not all programs (whole-program equivalence on symbolic text needs tokenizer and parser "
+             "inside the solver - same wall as C01). One known finding (the defect the property text names) is listed.",
+        ref="DESIGN.md 4 C17",
+    ),
 }
 
 NA = {
